@@ -48,6 +48,15 @@ CHECKS["C02"] = dict(
     note="Trusts the reference interpreter (validated by C01), the recording transport, and the first-node-payload guard (inspection cannot know the caller's payload).",
     design="DESIGN.md section 4 C02")
 
+CHECKS["C03"] = dict(
+    technique="Hypothesis-generated sweep specifications inside surrounding pipelines; differential oracle against an independent reference sweep expander (own linspace/geometric progression, sorted-name product, zip/cycle, eval of vetted expressions), both YAML-block and Python-API construction paths",
+    text=("Generated-input search (8k cases quick, 64k thorough) over sweep specs x wrapped kind x placements of non-swept parameters x "
+          "surrounding nodes. Element count, order, every element value, the typed collection class, probe result lists with "
+          "data pass-through, rejection of unequal lengths, and <var>_values for every variable and kind are compared with the "
+          "reference expander. Sampling; no claim beyond explored cases."),
+    note="Trusts the reference expander inside the model (~80 lines) and rtol 1e-9 for range-derived floats.",
+    design="DESIGN.md section 4 C03")
+
 NOT_YET = {}
 
 
